@@ -24,7 +24,7 @@ func (in *Interp) chanSend(cv Value, v Value, pos tokenPos) {
 			return
 		}
 	}
-	if len(c.c.buf) >= c.c.cap {
+	if len(c.c.buf) >= c.c.cap && in.inGo == 0 {
 		panic(&pathEnd{kind: "blocked", msg: "send on full channel at " + in.posStr(pos)})
 	}
 	c.c.buf = append(c.c.buf, copyVal(v))
@@ -82,12 +82,24 @@ func (in *Interp) selectOp(fr *frame, x *ssa.Select) Value {
 		} else {
 			if in.env != nil && in.env.ChanSend != nil {
 				ready = append(ready, i)
-			} else if !c.c.closed && len(c.c.buf) < c.c.cap {
+			} else if !c.c.closed && (len(c.c.buf) < c.c.cap || in.inGo > 0) {
 				ready = append(ready, i)
 			}
 		}
 	}
 	chosen := -1
+	if len(ready) == 0 && x.Blocking && in.inGo == 0 && !in.inBlockedHook {
+		// nothing can proceed: let the harness environment act once (e.g. the client disconnects)
+		if bh, ok := in.ghost["env:blocked"]; ok {
+			in.inBlockedHook = true
+			in.callValue(fr, bh, nil, x.Pos())
+			for _, c := range in.ctxNodes {
+				in.ctxRefresh(fr, c, x.Pos()) // a cancelled parent closes the Done channels already handed out
+			}
+			defer func() { in.inBlockedHook = false }()
+			return in.selectOp(fr, x)
+		}
+	}
 	if len(ready) == 0 {
 		if x.Blocking {
 			panic(&pathEnd{kind: "blocked", msg: "select with no ready case at " + in.posStr(x.Pos())})
@@ -135,7 +147,22 @@ func (in *Interp) goStmt(fr *frame, fn Value, args []Value, pos tokenPos) {
 			return
 		}
 	}
-	in.unsupported("go statement at %s", in.posStr(pos))
+	// Default model of `go f(x)`: f runs at once and to completion (one legal
+	// schedule); what it sends on unbuffered channels is queued for the spawning
+	// goroutine; when it blocks with nothing to wake it, it stays parked for the
+	// rest of the path (its effects so far remain).
+	in.note("go statement: callee runs synchronously at spawn; parked when it blocks")
+	in.inGo++
+	defer func() {
+		in.inGo--
+		if r := recover(); r != nil {
+			if pe, ok := r.(*pathEnd); ok && pe.kind == "blocked" {
+				return
+			}
+			panic(r)
+		}
+	}()
+	in.callValue(fr, fn, args, pos)
 }
 
 // ---- access tracking (C20) ----
@@ -309,6 +336,7 @@ func registerMisc(e *Engine) {
 	registerLevelDB(e)
 	registerCodec(e)
 	registerHTTP(e)
+	registerCtxModel(e)
 	if os.Getenv("GOSYM_NOSUMMARIES") == "" {
 		registerIRC(e)
 	}
